@@ -187,7 +187,9 @@ def run(n_warm, n_main, n_chain=2, n_process=1, assignment=None, order=None, tra
         os.cpu_count_orig = os.cpu_count
     sampler = SA.MarkovChainMonteCarloMethod(TokStream(), {"t": TokTransition()})
     ads = {"none": None, "fast": {"t": [CountAdapter()]}, "slow": {"t": [CountAdapter(), SlowAdapter()]}}[adapters]
-    stg = {"warmup": WarmUpStager(), "windowed": WindowedWarmUpStager(), "default": None}[stager]
+    stg = {"warmup": WarmUpStager(), "windowed": WindowedWarmUpStager(), "default": None,
+           # small windows: many recorded stages already for a handful of warm-up iterations
+           "windowed111": WindowedWarmUpStager(1, 1, 1)}[stager]
     if init == "dict":
         inits = [{"pos": np.array([-1.0 - c])} for c in range(n_chain)]
     else:
